@@ -678,6 +678,8 @@ def _rep(a, b):
 
 
 WITNESSES = [
+    ("zero-padded group names read back in string order", "batchie.core",
+     lambda t: _rep("i_grp = private_grp.create_group(str(i))", "i_grp = private_grp.create_group(\"{:04d}\".format(i))")(_rep("theta_keys = sorted(list(private_grp.keys()), key=int)", "theta_keys = sorted(list(private_grp.keys()))")(t)), ["R1"]),
     ("sorted without key=int", "batchie.core", _rep("theta_keys = sorted(list(private_grp.keys()), key=int)", "theta_keys = sorted(list(private_grp.keys()))"), ["R1"]),
     ("combine puts other first", "batchie.core", _rep("result.thetas = self.thetas + other.thetas", "result.thetas = other.thetas + self.thetas"), ["R2"]),
     ("chain ids from a re-sorted list", "batchie.cli.evaluate_model", _rep("for i, t in enumerate(theta_holders):", "for i, t in enumerate(sorted(theta_holders, key=lambda h: h.n_thetas)):"), ["R2"]),
